@@ -273,7 +273,7 @@ DLV_STREAM = {"name": "DLV", "quick": 400, "thorough": 6000, "profiles": ["debug
               "nontrivial": lambda c, o: nontrivial_enc(c, o) and not c.split(" ")[2].endswith("s"), "memlimit_kb": 8000000}
 DLV_RULE = (" DLV: the ENC generator with delivery variants: integer vs packed-byte fill, with/without length hint, "
             "single-threaded vs multi-threaded with 1..16 workers from the configuration or from FLACENC_WORKERS; the "
-            "model (which has no notion of delivery or threads) must produce the same bytes; two cases in every 200 are one LONG input (2049..2348 frames of 32 samples plus a short frame, so frame numbers cross the 1-/2-/3-byte classes), once single- and once multi-threaded. Non-trivial = multi-threaded "
+            "model (which has no notion of delivery or threads) must produce the same bytes; two cases in every 200 are one LONG input (2049..2348 frames of 32 samples plus a short frame, so frame numbers cross the 1-/2-/3-byte classes), once single- and once multi-threaded, and two more are one WIDE input (3/5/6/7 channels, 24 bits, one block of 3200..7300 samples: more than 16384 interleaved samples and 64 KiB per block, integer delivery, no length hint), again once single- and once multi-threaded. Non-trivial = multi-threaded "
             "and at least one Fixed/LPC subframe.")
 
 PROPS["C01"] = {
@@ -483,6 +483,13 @@ def cfg_oracle(pid, res, driver):
         findings += enc_oracle("C07", res, driver)
     if pid == "C19" and data:
         findings += doc_default_oracle(data)
+        # the round trip starts with serialisation: every configuration value must serialise (the property quantifies over all
+        # field assignments, valid or not - serialisation does not verify)
+        for c, o in zip(data["cases"], data["impl"].get("debug", [])):
+            t = c.split(" ")
+            ot = o.split(" ")
+            if t[2] == "S" and (len(ot) < 2 or ot[1] != "ok"):
+                findings.append({"case": c, "impl": o[:200], "why": "serialising this configuration to TOML failed (%s): the round trip cannot complete" % " ".join(ot[1:3])})
     return findings
 
 
@@ -917,7 +924,7 @@ CTOR_RULE = ("CTOR: every public constructor (Residual, QuantizedParameters, Con
              "warm-up quotient (1, k*2^(32-p0), 2^31) or remainder, remainder 2^15, quotients 65535/65536/100000, precision 0/16/17/32/64/2^20, shift -128..127, coefficient "
              "count off by one, coefficients one beyond the precision, order 0/25/32/33/100, widths 0/1/7/10/26..33/255/272/264/2^32+16, "
              "samples one beyond the width or i32::MIN/MAX, 0/32767/32768/40000/65536 verbatim samples, header block sizes over every code "
-             "class, 0, 32768, 65535, 65536, 2^32+64, channel counts 0/9/16/255, rates 0/655350/655351/10^6/2^32/2^32+44100/usize::MAX, "
+             "class (every 576*2^k and 256*2^k incl. those beyond the code tables, their neighbours, any size to 65535), 0, 32768, 65535, 65536, 2^32+64, channel counts 0/9/16/255, rates 0/655350/655351/10^6/2^32/2^32+44100/usize::MAX, "
              "frame numbers up to 2^32-1, start samples up to u64::MAX, frames whose subframe count / width / block size disagree with the "
              "header, metadata tags 0/127/128/255 and lengths 2^24-1, 2^24, 2^24+1. Observable: err / panic / ok with verify, count_bits, "
              "bits written, bytes, parse-back identical (Debug form). Non-trivial = accepted, or rejected by the outer constructor.")
@@ -1456,7 +1463,7 @@ def enc_oracle(pid, res, driver, stream="ENC"):
         checked += 1
         n = len(pc["samples"]) // pc["ch"]
         if len(dt) < 2 or dt[1] != "ok":
-            if pid in ("C01", "C02", "C03", "C04"):
+            if pid in ("C01", "C02", "C03", "C04", "C07"):
                 findings.append(dict(short, why="the independent strict decoder (extracted Flac.decode_stream), which cross-checks STREAMINFO against "
                                                 "the decoded frames, rejects the emitted stream: %s" % d[:80]))
             continue
